@@ -140,7 +140,10 @@ def run(ctx):
             # the CRC-32 part as four octets, including the values an "is it there?" test could mistake for absent
             c32 = rng.choice([None, None, bytes(rng.getrandbits(8) for _ in range(4)), bytes(rng.getrandbits(8) for _ in range(4)),
                               bytes(4), b"\x00\x00\x00\x01", b"\x80\x00\x00\x00", b"\xff\xff\xff\xff"])
-            fe9(data, dbsn, m.value, c32, CRC9.calculate_from_parts(data, dbsn, m, crc32=c32))
+            # the parts arrive in whatever bytes-like form the caller holds them: bytes, a subclass, a slice of a receive buffer
+            form = [bytes, bytes, gen.Octets, bytearray, memoryview][len(fe) % 5]
+            fe9(data, dbsn, m.value, c32, CRC9.calculate_from_parts(form(data) if form is not memoryview else data, dbsn, m,
+                                                                    crc32=None if c32 is None else form(c32)))
         elif k == "16":
             data = bytes(rng.getrandbits(8) for _ in range(rng.choice([10, 10, rng.randrange(0, 40)])))
             m = rng.choice(masks)
